@@ -13,12 +13,12 @@ NEEDS_BIN = True
 FILE_CAP = 24 * 1024 * 1024        # the writer gives up after this many bytes: the reader is then unbounded
 FILE_SLACK = 2 * 1024 * 1024       # pipe capacity (<= 1 MiB) + BufReader read-ahead + margin
 
-def run_fifo(args, prefix, unit, timeout=40):
+def run_fifo(args, prefix, unit, timeout=40, cap=None):
     """the real binary reading a named pipe given as a FILE argument; an endless writer on the other side.
     Returns (exit status or 'hang', stdout, bytes the writer got rid of before the reader went away)"""
     d = os.path.join(lib.BUILD, 'tmp', 'fifo%d_%d' % (os.getpid(), threading.get_ident())); os.makedirs(d, exist_ok=True)
     path = os.path.join(d, 'in.json'); os.mkfifo(path)
-    written = [0]; stop = [False]
+    written = [0]; stop = [False]; cap = cap or FILE_CAP
     def writer():
         try:
             fd = os.open(path, os.O_WRONLY)
@@ -26,7 +26,7 @@ def run_fifo(args, prefix, unit, timeout=40):
         try:
             buf = prefix
             block = unit * max(1, 65536 // max(1, len(unit)))
-            while not stop[0] and written[0] < FILE_CAP:
+            while not stop[0] and written[0] < cap:
                 n = os.write(fd, buf[:65536]); written[0] += n; buf = buf[n:] or block
         except OSError: pass             # EPIPE: the reader closed the file
         finally:
@@ -111,7 +111,22 @@ def run(ctx):
            'samples': [common.describe(c) for c in cases[:2]],
            'traces_validated_against_impl': checked - len(mism), 'model_mismatches': len(mism), 'direct_relations_checked': checked}
     broken = ['correspondence: model and implementation differ on %d cases, e.g. %s' % (len(mism), json.dumps(mism[0])[:1500])] if mism else []
-    return {'coverage': cov, 'violations': violations, 'broken': broken}
+    return {'coverage': cov, 'violations': violations, 'broken': broken, 'known': known_k6(ctx)}
+
+def known_k6(ctx):
+    """K6: the T-th row comes from the first file argument; the second one (a named pipe fed with values the filter rejects) must not be
+    consumed any more.  The unchanged tree reads it until the writer gives up: reported as the known finding, not as a violation."""
+    out = []
+    for k in ctx['known']:
+        if k['id'] != 'K6': continue
+        d = os.path.join(lib.BUILD, 'tmp', 'k6_%d' % os.getpid()); os.makedirs(d, exist_ok=True)
+        f1 = os.path.join(d, 'first.json'); open(f1, 'wb').write(b'{"a":1}\n')
+        rc, so, written = run_fifo(k['witness']['args'] + [f1], b'', b'{"a":0}\n', timeout=60, cap=4 * 1024 * 1024)
+        try: os.unlink(f1); os.rmdir(d)
+        except OSError: pass
+        if so.strip() == b'{"a": 1}' and (rc == 'hang' or written > FILE_SLACK):
+            out.append('%s %s: %s (the writer of the second file got rid of %d bytes after the only row had been written)' % (k['id'], k['class'], k['what'], written))
+    return out
 
 def replay(ctx, r):
     if r.get('input') == 'fifo':
